@@ -300,3 +300,36 @@ V("c14-sphero-radius-zero-delegates", "fault", "C14", P + "convex_spheropolygon.
   "        num_verts = self.num_vertices\n        verts = self._polygon.vertices[:, :2] - self._polygon.centroid[:2]\n",
   "        if self.radius == 0:\n            return ConvexPolygon(self.vertices + 1.0).distance_to_surface(angles)\n        num_verts = self.num_vertices\n        verts = self._polygon.vertices[:, :2] - self._polygon.centroid[:2]\n", rule="FRAME-1")
 V("c14-rw-mod-operator", "rewrite", "C14", P + "convex_spheropolygon.py", "        angles = np.mod(angles, 2 * np.pi)\n        num_verts = self.num_vertices", "        angles = np.remainder(angles, 2 * np.pi)\n        num_verts = self.num_vertices")
+
+# ------------------------------------------------------------------------------------------ C04
+V("c04-centroid-unsigned-area", "fault", "C04", P + "polygon.py", "/ (6 * self.signed_area)", "/ (6 * self.area)", rule="PAR")
+V("c04-ixy-abs", "fault", "C04", P + "polygon.py", "i_xy = np.sum(xy_sums) / 24 * np.sign(self.signed_area)", "i_xy = np.abs(np.sum(xy_sums) / 24)", rule="ABS-1")
+V("c04-ixy-no-orientation", "fault", "C04", P + "polygon.py", "i_xy = np.sum(xy_sums) / 24 * np.sign(self.signed_area)", "i_xy = np.sum(xy_sums) / 24", rule="PAR")
+V("c04-ix-iy-swapped", "fault", "C04", P + "polygon.py", "i_y, i_x, _ = np.abs(np.sum(diag_sums, axis=0) / 12)", "i_x, i_y, _ = np.abs(np.sum(diag_sums, axis=0) / 12)", rule="AXS")
+V("c04-area-signed", "fault", "C04", P + "polygon.py", "        return np.abs(self.signed_area)\n", "        return self.signed_area\n", rule="PAR")
+V("c04-signed-area-abs", "fault", "C04", P + "polygon.py", "        ) * (an / (2 * self._normal[proj_coord]))\n\n        return area", "        ) * (an / (2 * self._normal[proj_coord]))\n\n        return np.abs(area)", rule="PAR")
+V("c04-centroid-cx-uses-y", "fault", "C04", P + "polygon.py", "c_x = np.sum((verts[:, 0] + verts_shifted[:, 0]) * delta_term)", "c_x = np.sum((verts[:, 1] + verts_shifted[:, 1]) * delta_term)", rule="AXS")
+V("c04-rotate-forward", "fault", "C04", P + "polygon.py", "rotate_order2_tensor(mat.T, inertia_tensor)", "rotate_order2_tensor(mat, inertia_tensor)", rule="FRAME-1")
+V("c04-centroid-rotate-forward", "fault", "C04", P + "polygon.py", "centroid = rotation.T.dot(in_plane_centroid)", "centroid = rotation.dot(in_plane_centroid)", rule="FRAME-1")
+V("c04-perimeter-squared", "fault", ["C04", "C09"], P + "polygon.py",
+  "                np.roll(self.vertices, axis=0, shift=-1) - self.vertices, axis=-1\n            )\n        )",
+  "                np.roll(self.vertices, axis=0, shift=-1) - self.vertices, axis=-1\n            )\n            ** 2\n        )", rule=None)
+V("c04-xy-sum-wrong-shift", "fault", "C04", P + "polygon.py", "xip1_yi = verts[:, 1] * shifted_verts[:, 0]", "xip1_yi = verts[:, 1] * verts[:, 0]", rule=None)
+V("c04-rw-roll-positional", "rewrite", "C04", P + "polygon.py", "verts_shifted = np.roll(verts, shift=-1, axis=0)\n\n        delta_term", "verts_shifted = np.roll(verts, -1, axis=0)\n\n        delta_term")
+V("c04-rw-transpose-local", "rewrite", "C04", P + "polygon.py",
+  "            original_center, rotate_order2_tensor(mat.T, inertia_tensor), self.area",
+  "            original_center, rotate_order2_tensor(np.transpose(mat), inertia_tensor), self.area")
+
+# ------------------------------------------------------------------------------------------ C12
+V("c12-density-dropped", "fault", "C12", P + "polyhedron.py", "        form_factor *= density\n        return form_factor", "        return form_factor", rule="FF-1")
+V("c12-density-only-nonzero", "fault", "C12", P + "sphere.py",
+  "        form_factor *= density * np.exp(-1j * np.dot(q, self.centroid))", "        form_factor *= np.exp(-1j * np.dot(q, self.centroid))", rule="FF-1")
+V("c12-sphere-no-phase", "fault", "C12", P + "sphere.py",
+  "        form_factor *= density * np.exp(-1j * np.dot(q, self.centroid))", "        form_factor *= density", rule="FF-4")
+V("c12-zero-branch-surface", "fault", "C12", P + "polyhedron.py", "        form_factor[zero_q] = self.volume", "        form_factor[zero_q] = self.surface_area", rule=None)
+V("c12-squeeze-axisless", "fault", "C12", P + "polygon.py", "        ).squeeze(axis=(1, 2))\n        edges_dot_qs", "        ).squeeze()\n        edges_dot_qs", rule="FF-3")
+V("c12-orientation-sign-dropped", "fault", ["C12"], P + "polygon.py", "        ) * np.sign(self.signed_area)\n        form_factor *= density", "        )\n        form_factor *= density", rule="FF-2")
+V("c12-plane-distance-sign", "fault", "C12", P + "polyhedron.py", "face_normal, d = eqn[:3], -eqn[3]", "face_normal, d = eqn[:3], eqn[3]", rule="FF-4")
+V("c12-q-times-length-squared", "fault", "C12", P + "sphere.py", "qr = np.sqrt(q_sqs[~zero_q]) * self.radius", "qr = np.sqrt(q_sqs[~zero_q]) * self.radius**2", rule="DEG")
+V("c12-polygon-no-midpoint-phase", "fault", "C12", P + "polygon.py", "f_ns * 1j * np.exp(-1j * midpoints_dot_qs), axis=0", "f_ns * 1j, axis=0", rule="FF-4")
+V("c12-rw-density-form", "rewrite", "C12", P + "polyhedron.py", "        form_factor *= density\n        return form_factor", "        return density * form_factor")
